@@ -154,15 +154,9 @@ impl Monitor for C02 {
                                 );
                                 // envelope S9: beyond the 1000:1 skew for which pricing accuracy is stated
                                 // the integer Newton iteration of the minting invariant is ill-conditioned
-                                if let Some((xs, _)) = normalise(&r0, &pi.asset_decimals) {
-                                    let mx = xs.iter().max().unwrap();
-                                    let mn = xs.iter().min().unwrap();
-                                    // ... or an asset holds fewer than 1000 smallest units (dust pool: the
-                                    // granularity of that reserve alone is above 0.1%)
-                                    if mx > &(mn * 1000u32) || r0.iter().any(|x| *x < 1000) {
-                                        v.finding = Some("S9-stableswap-skewed-pool-accuracy".into());
-                                        v.truncate = false;
-                                    }
+                                if super::c03::degenerate(pi, &r0) {
+                                    v.finding = Some("S9-stableswap-skewed-pool-accuracy".into());
+                                    v.truncate = false;
                                 }
                                 // envelope S8: the minting invariant is only accurate to a few units (integer
                                 // Newton), so the mint can exceed the exact growth by those few units
